@@ -44,7 +44,7 @@ http_fault = st.one_of(
 )
 ws_fault = st.one_of(
     st.fixed_dictionaries({'on': st.just('ws-connect'), 'n': st.integers(0, 1),
-                           'kind': st.just('refuse')}),
+                           'kind': st.sampled_from(['refuse', 'bad-status'])}),
     st.fixed_dictionaries({'on': st.just('ws-recv'), 'n': st.integers(0, 5),
                            'kind': st.sampled_from(['drop', 'swallow', 'silence'])}),
     st.fixed_dictionaries({'on': st.just('ws-recv'), 'n': st.integers(0, 5), 'kind': st.just('replace'),
